@@ -394,6 +394,95 @@ def rules_file_sorting(a):
         a.candidates.append(c)
 
 
+def function_arity_gate(a):
+    """C18 / C08: the built-ins index their argument lists (`args[1][0]` ...) and rely on the parser having checked the number of arguments
+    (the index-in-bounds obligations assume it). function_expr: a call is accepted only if the number of parameters parsed equals
+    get_expected_number_of_args() of the function NAMED, and the expression built carries that name and exactly those parameters"""
+    geo = {}
+
+    def m_expected(ex, av):
+        k = str(av[0])
+        if k not in geo:
+            geo[k] = ex.fresh_int("usize", "arity")
+        return geo[k]
+
+    def m_call_expr(ex, av):
+        return ex.fresh_result(("tuple", [av[0] if av else ex.opq(), ("tuple", [ex.opq(), ex.opq()])]), "call")
+    ex = a.exec(r"(?:(?:rules::)?parser::)?function_expr",
+                {"call_expr": m_call_expr, "try_from": m_result_opq, "get_expected_number_of_args": m_expected,
+                 "len": lambda ex, av: ("int", ex.len_of(av[0])), "as_str": mirexec.m_identity, "map_err": mirexec.m_identity,
+                 "location_line": lambda ex, av: ex.havoc("u32"), "get_column": lambda ex, av: ex.havoc("usize")},
+                log=("len", "get_expected_number_of_args"), unroll=1, max_paths=2000, deepen=False)
+    a.fns.append("rules::parser::function_expr")
+    bad, nok = [], 0
+    for p in ex.paths:
+        r = p.ret
+        if p.outcome != "return" or not r or r[0] != "enum" or r[1] != "Result":
+            bad.append(pc_term(p.pc))
+            continue
+        ce, tf = calls(p, "call_expr"), calls(p, "try_from")
+        okv = r[3].get("Ok")
+        is_ok = f"(= {r[2]} 0)"
+        if okv is None or "Err" in r[3] and r[2] == "1":
+            continue
+        nok += 1
+        lens, exps = calls(p, "len"), calls(p, "get_expected_number_of_args")
+        fe = okv[1][1] if okv[0] == "tuple" and len(okv[1]) == 2 else None
+        params = ce[0][3][3]["Ok"][1][1][1][1] if ce and ce[0][3][0] == "enum" else None
+        name = tf[0][3][3]["Ok"] if tf and tf[0][3][0] == "enum" else None
+        shape = (fe is not None and fe[0] == "struct" and fe[2].get("parameters") == params and fe[2].get("name") == name and params is not None
+                 and name is not None and lens and exps and lens[0][2][0] == params and all(e[2][0] == name for e in exps))
+        good = f"(= {lens[0][3][1]} {exps[0][3][1]})" if shape else "false"
+        bad.append(f"(and {pc_term(p.pc)} {is_ok} (not {good}))")
+    c = a.discharge("parser/function_expr/arity-gate", ex, bad,
+                    f"function_expr ({nok} accepting paths): a call expression is accepted only when the number of parameters parsed equals "
+                    "get_expected_number_of_args() of the function named; the FunctionExpr built carries that function and exactly those parameters")
+    if c:
+        c["replay"] = replay_function_arity(a)
+        c["reproduced"] = c["replay"].get("reproduced", False)
+        a.candidates.append(c)
+
+
+def replay_function_arity(a):
+    """every built-in with one argument too few / too many: the rules file is rejected (exit 5), never a crash; with the right number it loads"""
+    import os, shutil, subprocess, tempfile
+    exe = a.cli()
+    if not exe:
+        return {"reproduced": False, "note": "native build failed"}
+    src = open(os.path.join(a.src, "guard", "src", "rules", "eval_context.rs")).read()
+    m = re.search(r"fn get_expected_number_of_args\(&self\) -> usize \{\s*match self \{(.*?)\n        \}", src, re.S)
+    names = {"Count": "count", "JsonParse": "json_parse", "RegexReplace": "regex_replace", "Join": "join", "Substring": "substring", "ToLower": "to_lower",
+             "ToUpper": "to_upper", "UrlDecode": "url_decode", "ParseInt": "parse_int", "ParseFloat": "parse_float", "ParseString": "parse_string",
+             "ParseBoolean": "parse_boolean", "ParseChar": "parse_char", "Now": "now", "ParseEpoch": "parse_epoch"}
+    arity = {}
+    for arm in re.finditer(r"((?:\|?\s*FunctionName::\w+\s*)+)=>\s*(\d+)", m.group(1) if m else ""):
+        for v in re.findall(r"FunctionName::(\w+)", arm.group(1)):
+            arity[v] = int(arm.group(2))
+    d = tempfile.mkdtemp(prefix="cfnverif_replay_")
+    out, tried = [], 0
+    try:
+        open(os.path.join(d, "d.json"), "w").write('{"s": "abc", "l": ["a", "b"]}\n')
+        for var, n in sorted(arity.items()):
+            fn = names.get(var)
+            if not fn:
+                continue
+            for k in (n - 1, n, n + 1):
+                if k < 0:
+                    continue
+                args = ", ".join(["s", "\"b\"", "\"c\"", "\"d\"", "\"e\""][:k])
+                open(os.path.join(d, "r.guard"), "w").write(f"let v = {fn}({args})\nrule r {{ s exists }}\n")
+                pr = subprocess.run([exe, "validate", "-r", os.path.join(d, "r.guard"), "-d", os.path.join(d, "d.json"), "--show-summary", "none"],
+                                    capture_output=True, text=True, timeout=60)
+                tried += 1
+                crashed = pr.returncode == 101 or "panicked" in pr.stderr
+                if crashed or (k != n and pr.returncode != 5) or (k == n and pr.returncode == 5):
+                    out.append({"call": f"{fn}({args})", "declared_arity": n, "exit": pr.returncode, "expected": "5 (rules file rejected)" if k != n else "not 5",
+                                "stderr": pr.stderr[-200:]})
+        return {"reproduced": bool(out), "mismatches": out[:4], "runs": tried}
+    finally:
+        shutil.rmtree(d, ignore_errors=True)
+
+
 from mirblocks import type_block, guard_block
 
 
@@ -404,4 +493,5 @@ def this_and_index_forms(a):
     mirquery.q_dispatch(a)
 
 
-SITES = {"C14": [keyword_tables, type_block_desugar, parser_clause_wiring, quoting_wiring, type_block, guard_block, this_and_index_forms, index_spellings_agree, rules_file_sorting]}
+SITES = {"C14": [keyword_tables, type_block_desugar, parser_clause_wiring, quoting_wiring, type_block, guard_block, this_and_index_forms, index_spellings_agree, rules_file_sorting],
+         "C18": [function_arity_gate], "C08": [function_arity_gate]}
